@@ -611,13 +611,15 @@ def fresh_process_results(steps, order, import_first):
     """Execute the literalised steps in a new interpreter in the given order.  An import_first entry "flag:-O"
     starts that interpreter with assertions stripped."""
     flags = [f[5:] for f in import_first if f.startswith("flag:")]
-    import_first = [f for f in import_first if not f.startswith("flag:")]
+    envs = dict(f[4:].split("=", 1) for f in import_first if f.startswith("env:"))
+    import_first = [f for f in import_first if not f.startswith(("flag:", "env:"))]
     with tempfile.NamedTemporaryFile("w", suffix=".json", delete=False, dir="/tmp") as fh:
         json.dump({"steps": steps, "order": order, "import_first": import_first}, fh)
         path = fh.name
     try:
         env = dict(os.environ, PYTHONHASHSEED="0", PYTHONDONTWRITEBYTECODE="1")
         env.pop("PYTHONOPTIMIZE", None)
+        env.update(envs)                      # e.g. another PYTHONHASHSEED: set / dict iteration order of bytes and str keys
         r = subprocess.run([sys.executable] + flags + ["-m", "vf.props.c20", path], cwd=VERIF_DIR, env=env,
                            capture_output=True, text=True, timeout=900)
         if r.returncode != 0:
@@ -893,7 +895,7 @@ def make_machine(ctx, W, budget, fresh_every):
                 rev = idx[::-1]
                 perm = sorted(idx, key=lambda q: (q * 7919 + n) % (n + 3))
                 orders = [[rev, ["flag:-O"] if counter["histories"] % (2 * fresh_every) == 0 else []],
-                          [perm, ["attr:secp256k1", "py_ecc.bls", "attr:bn128"]]]
+                          [perm, ["attr:secp256k1", "py_ecc.bls", "attr:bn128", f"env:PYTHONHASHSEED={1 + counter['histories'] % 997}"]]]
                 ctx.case = {"steps": self.R.steps, "fresh": orders}
                 check_fresh(ctx, W, self.R, orders)
             if n:
@@ -1007,7 +1009,7 @@ def t_pinned(ctx):
     n = len(steps)
     case = {"steps": steps, "fresh": [[list(range(n))[::-1], []], [list(range(0, n, 2)) + list(range(1, n, 2)), ["py_ecc.bn128"]],
                                        [list(range(n)), ["attr:secp256k1", "attr:bls", "attr:optimized_bn128"]],
-                                       [list(range(n)), ["flag:-O"]]]}
+                                       [list(range(n)), ["flag:-O", "env:PYTHONHASHSEED=4242"]]]}
     ctx.ev(n)
     o_history(ctx, case)
     for g in ("field", "curve", "pairing", "hash", "codec", "bls", "secp"):
